@@ -60,7 +60,15 @@ ASSUMPTIONS = [
     "windows and templates are judged for even box sizes only (quantifier); window = [floor(c - N/2), floor(c - N/2)+N) per axis; copied voxels exact, fill = volume mean to max(1e-9, 64 eps of the volume dtype) relative",
     "place_object thresholds the rotated template at 0.1 (source); smooth templates: voxels whose closed-form rotated value is within 0.004 of 0.1 "
     "are undetermined (measured need 0.00047); stamp centroid within 0.7 voxel of floor(p-1) + R.(centroid of the thresholded template) (measured 0.13)",
-    "colour = value of the colouring field in the particle's ROW (by position), cast to the container dtype",
+    "colour = value of the colouring field in the particle's ROW (by position), cast to the container dtype; colour 0 is a colour like any other",
+    "resolution for non-right-angle rotations: the implementation-independent oracle (closed-form rotated Gaussians) sees deviations above ~1e-3 of the "
+    "peak only (the interpolation error of any reasonable scheme); a perturbation of the pull-back matrix at 1e-6 (density change 2e-6..1e-5 of the peak) "
+    "is below the resolution of the statement and is deliberately not chased with an oracle that pins spline order / prefilter / boundary mode",
+    "planted inputs: box edges 2**k and 2**k +- 1, templates with 2**k (+-1) voxels set, lists of 20 / 2**k (+-1) poses, window centres and positions one ulp "
+    "and 1e-9..5e-7 below / above a voxel boundary (ulp only where c - N/2 is exact in floating point), centres at 1e5+1 / 2**24 / 2**31 / 2**53-128, colours "
+    "100001..100003 / 2**24(+1,+2) / 2**31 / 2**53 / 1e-30 / 0, exact duplicate positions and rows, in-place edits of the caller's map / centre array / "
+    "particle table between calls, radians with negative and > 2 pi angles, and an option grid (call form x spline order x dtype x parity; window class x "
+    "coordinate type x shape type; template list x container x colouring field) in extra()",
     "symmetrize_volume vs mean of real rotate calls is compared on non-face voxels (a 360 degree copy and a 0 degree copy differ on faces only)",
     "MALLOC_PERTURB_=190 is set for the child processes (glibc fills malloc'ed memory with 0x41 bytes) and same-size junk arrays are freed before "
     "symmetrize_volume, so that reads of uninitialised memory show in the result",
